@@ -57,7 +57,8 @@ def step (routes : St) (fields : List String) (impl : String) : St × Drv.Reply 
       (routes, ⟨want, want == impl, true, want == impl, "-"⟩)
     | _, _ => (routes, .bad)
   | ["pkt", k, t, ns, id, fr, to] =>
-    match parseKind k, decStr t, (if ns == "~" then some none else (decStr ns).map some), decStr id, decStr fr, decStr to with
+    -- `~`: no payload; `@<ns>`: a payload nobody registered (decoded into IQ.Any): for the matchers no payload at all
+    match parseKind k, decStr t, (if ns == "~" || ns.startsWith "@" then some none else (decStr ns).map some), decStr id, decStr fr, decStr to with
     | some kind, some t, some ns, some id, some fr, some to =>
       let p : Pkt := ⟨kind, t, ns, id, fr, to⟩
       let o := route routes p
